@@ -152,6 +152,12 @@ func blockReturnsError(b *ssa.BasicBlock, depth int) bool {
 			if isNilConst(v) {
 				return false
 			}
+			// ... and it must be an error for certain: not the result of some later call that may
+			// well be nil (`err := hs(); if err != nil { if err = conn.Close(); ...; return nil, err }`
+			// returns (nil, nil) because Close always succeeds)
+			if !certainlyAnError(v, b) {
+				return false
+			}
 		}
 		return true
 	case *ssa.Jump:
@@ -166,6 +172,83 @@ func blockReturnsError(b *ssa.BasicBlock, depth int) bool {
 		return blockReturnsError(b.Succs[0], depth+1) && blockReturnsError(b.Succs[1], depth+1)
 	}
 	return false
+}
+
+// certainlyAnError: v cannot be nil where block b returns it: a freshly made error value, a
+// package-level error variable, ctx.Err() after Done, a value with a dominating non-nil test, or
+// something handed in from outside (a parameter, a captured variable). The result of any other
+// call is not.
+func certainlyAnError(v ssa.Value, b *ssa.BasicBlock) bool {
+	if hasFact(b, func(f Fact) bool { return factRel(f, isValue(v), isNilConst) == "!=" }) {
+		return true
+	}
+	switch x := v.(type) {
+	case *ssa.MakeInterface, *ssa.Parameter, *ssa.FreeVar, *ssa.Global, *ssa.TypeAssert, *ssa.Lookup, *ssa.Field, *ssa.Index:
+		return true
+	case *ssa.ChangeInterface:
+		return certainlyAnError(x.X, b)
+	case *ssa.UnOp:
+		if x.Op == token.MUL {
+			switch x.X.(type) {
+			case *ssa.Global, *ssa.FieldAddr, *ssa.FreeVar, *ssa.IndexAddr:
+				return true
+			}
+		}
+		return true
+	case *ssa.Extract:
+		if call, ok := x.Tuple.(*ssa.Call); ok {
+			return knownErrorCall(call.Common())
+		}
+		return true
+	case *ssa.Call:
+		return knownErrorCall(x.Common())
+	}
+	return true
+}
+
+func knownErrorCall(cc *ssa.CallCommon) bool {
+	if cc.IsInvoke() {
+		// ctx.Err(), err.Unwrap() ...
+		return cc.Method.Name() == "Err" || cc.Method.Name() == "Error"
+	}
+	sc := cc.StaticCallee()
+	if sc == nil {
+		return false
+	}
+	if sc.Pkg != nil {
+		switch sc.Pkg.Pkg.Path() {
+		case "fmt", "errors", "google.golang.org/grpc/status":
+			return true
+		}
+	}
+	// a function of the analysed packages all of whose returns are certain errors
+	if len(sc.Blocks) == 0 {
+		return false
+	}
+	ok, n := true, 0
+	allInstrs(sc, func(in ssa.Instruction) {
+		ret, isRet := in.(*ssa.Return)
+		if !isRet || ret.Block().Comment == "recover" || len(ret.Results) == 0 {
+			return
+		}
+		for _, v := range expandValues(ret.Results[len(ret.Results)-1]) {
+			n++
+			if isNilConst(v) {
+				ok = false
+				continue
+			}
+			switch y := v.(type) {
+			case *ssa.MakeInterface:
+			case *ssa.Call:
+				if s2 := y.Common().StaticCallee(); s2 == nil || s2.Pkg == nil || (s2.Pkg.Pkg.Path() != "fmt" && s2.Pkg.Pkg.Path() != "errors") {
+					ok = false
+				}
+			default:
+				ok = false
+			}
+		}
+	})
+	return ok && n > 0
 }
 
 func runC16(c *Checker) {
